@@ -19,7 +19,7 @@ func main() {
 		"non-trivial = the outcome of the run differs from the outcome of running the threads one after the other (thread 0 " +
 		"first), or a goroutine was blocked on the name lock, or a file was instantiated while another goroutine was inside " +
 		"the same load; distinct = distinct (program, executed schedule) pairs among those. " +
-		"free-running part (race-detector build of the stress program): not yet run by this command"
+		"free-running part: the race-detector build of the stress program (cmd/c13race), every report of the race detector and every functional failure is a violation"
 	setupRuntime(cfg.Out)
 	installHook()
 	rng := lib.NewRng(cfg.Seed)
